@@ -42,7 +42,13 @@ def run_pattern(args):
             for i, off in enumerate(seq):
                 pn = base + off
                 eliciting = (off + i) % 3 != 2
-                frames = [{"t": "PING"}] if eliciting else [{"t": "ACK", "ranges": [(0, 0)], "delay": 0}]
+                if eliciting:
+                    frames = [{"t": "PING"}]
+                else:
+                    # an ACK-only packet that acknowledges everything the endpoint has sent so far, its own
+                    # ACK-only packets included (an "ACK of ACK": the endpoint may prune its ack queue)
+                    top = max([r.pn for r in bot.E.sent_packets if r.epoch == "A" and r.pn is not None] or [0])
+                    frames = [{"t": "ACK", "ranges": [(0, top)], "delay": 0}]
                 r = bot.send(frames, pn=pn)
                 delivered.add(pn)
                 if eliciting and pn > largest:
